@@ -19,6 +19,7 @@ import (
 	"fmt"
 	"io"
 	"log"
+	"math"
 	"net/http"
 	"net/http/httptest"
 	"net/url"
@@ -26,6 +27,7 @@ import (
 	"runtime"
 	"runtime/debug"
 	"sort"
+	"strconv"
 	"strings"
 	"sync"
 	"time"
@@ -48,7 +50,9 @@ func init() {
 			"uncompilable-looking patterns, discriminators, deepObject, recursive components, path items without operations, trailing-slash and templated servers) × " +
 			"byte-level requests/responses (any method, verbatim-template and mutated paths, hostile queries, content types and bodies) through both routers, " +
 			"ValidateRequest (every registered body decoder incl. YAML with non-string keys / non-finite floats, zip, csv, multipart with YAML parts; NaN/Inf parameter texts; deepObject array indexes), " +
-			"error text / ConvertErrors / ValidationErrorEncoder+DefaultErrorEncoder, ValidateResponse, Validator.Middleware, ValidationHandler (file-loaded); non-trivial = the model reports ≥1 feature/branch",
+			"error text / ConvertErrors / ValidationErrorEncoder+DefaultErrorEncoder, ValidateResponse, Validator.Middleware, ValidationHandler (file-loaded); " +
+			"typed Go values: bodies through a user-registered decoder that hands the validator map[any]any (non-string keys), int / int32 / int64 / float64 / json.Number, nested; " +
+			"histories: the same exchange 2–4 times in one fresh child process (field repeat; with reuse on one loaded document and one router, else on fresh ones; or after another exchange against another document with patterns of the same pool, field before) over documents with patterns in every position document validation does not compile (texts Go's regexp accepts and rejects) and over exchanges of the general stream; non-trivial = the model reports ≥1 feature/branch",
 		Exhaustive: true,
 		Gen:        genC10,
 		Run:        runC10,
@@ -62,6 +66,7 @@ func init() {
 			"documents that fail to load or validate are outside the property (observed as invalid-doc, counted, never compared)",
 			"authentication callbacks are user code: only nil, NoopAuthenticationFunc and a function that returns AuthenticationInput.NewError are used",
 			"strings are ASCII",
+			"a user-registered body decoder returns values of the shapes the JSON / YAML decoders can return: nil, bool, string, int, int32, int64, float64, json.Number, []any, map[string]any, map[any]any with string / integer / bool / finite float keys",
 		},
 	})
 }
@@ -89,6 +94,11 @@ func runC10(c hx.Case) any {
 		}
 		// a huge bracketed index can make the decoder allocate without bound (F-C10-8): never in this process
 		if rq, ok := c["req"].(map[string]any); ok && c10HugeIndex(jstr(rq, "query")) {
+			return hx.RunIsolated("C10", c, 60000)
+		}
+		// a history (the same exchange several times in one process) is about state the library keeps between calls
+		// in process-wide variables: it starts from a fresh process, so that a replay file is self-contained
+		if c10Repeat(c) >= 2 || len(jlist(c["before"])) > 0 {
 			return hx.RunIsolated("C10", c, 60000)
 		}
 	}
@@ -477,7 +487,7 @@ func (s *c10Stage) guard(stage string, f func()) (ok bool) {
 			site := ""
 			lines := strings.Split(st, "\n")
 			for i, l := range lines {
-				if (strings.Contains(l, "kin-openapi") || strings.Contains(l, "/repo/") || strings.Contains(l, "/tmp/mut/") || strings.Contains(l, "/tmp/r/")) && !strings.Contains(l, "kinverif") && strings.HasPrefix(l, "\t") {
+				if (strings.Contains(l, "kin-openapi") || strings.Contains(l, "/repo/") || strings.Contains(l, "/openapi3/") || strings.Contains(l, "/openapi3filter/") || strings.Contains(l, "/routers/")) && !strings.Contains(l, "kinverif") && strings.HasPrefix(l, "\t") {
 					site = strings.TrimSpace(l)
 					if i > 0 {
 						site = strings.TrimSpace(lines[i-1]) + " @ " + site
@@ -521,6 +531,92 @@ func c10Request(rq map[string]any) (*http.Request, error) {
 		req.Header.Set("Content-Type", ct)
 	}
 	return req, nil
+}
+
+// A body decoder as a user of the library writes one (RegisterBodyDecoder): the body is the JSON text of a value tree
+// (the nodes of c10Yaml) and the decoder hands the validator the Go value it describes WITH THE DYNAMIC TYPES decoders
+// outside encoding/json produce: map[any]any for a mapping with a non-string key (yaml.v2 style), int / int64 / int32
+// / float64 for numbers, json.Number, bool, nil, []any. Mapping keys are strings, ints, bools and finite floats
+// (nil and NaN keys are what the library's own YAML decoder rejects since ca97fab: not produced here either).
+const c10TypedCT = "application/x-c10-typed"
+
+func c10TypedDecoder(body io.Reader, _ http.Header, _ *openapi3.SchemaRef, _ openapi3filter.EncodingFn) (any, error) {
+	var tree any
+	dec := json.NewDecoder(body)
+	dec.UseNumber()
+	if err := dec.Decode(&tree); err != nil {
+		return nil, &openapi3filter.ParseError{Kind: openapi3filter.KindInvalidFormat, Cause: err}
+	}
+	return c10TypedValue(tree), nil
+}
+
+func c10TypedValue(n any) any {
+	m, ok := n.(map[string]any)
+	if !ok {
+		return nil
+	}
+	if v, ok := m["s"]; ok {
+		return fmt.Sprint(v)
+	}
+	if v, ok := m["i"]; ok {
+		i := c10Int(v)
+		switch jstr(m, "t") {
+		case "int64":
+			return int64(i)
+		case "int32":
+			return int32(i)
+		case "float64":
+			return float64(i)
+		case "number":
+			return json.Number(fmt.Sprint(i))
+		}
+		return i
+	}
+	if v, ok := m["f"]; ok {
+		f, err := strconv.ParseFloat(fmt.Sprint(v), 64)
+		if err != nil || math.IsNaN(f) || math.IsInf(f, 0) {
+			return 1.5
+		}
+		return f
+	}
+	if v, ok := m["b"].(bool); ok {
+		return v
+	}
+	if l, ok := m["l"].([]any); ok {
+		out := make([]any, 0, len(l))
+		for _, x := range l {
+			out = append(out, c10TypedValue(x))
+		}
+		return out
+	}
+	if kvs, ok := m["m"].([]any); ok {
+		allStr := true
+		out := map[any]any{}
+		for _, kv := range kvs {
+			p, ok := kv.([]any)
+			if !ok || len(p) != 2 {
+				continue
+			}
+			k := c10TypedValue(p[0])
+			switch k.(type) {
+			case string:
+			case int, int32, int64, float64, bool:
+				allStr = false
+			default: // nil, json.Number, composite keys: not a key a decoder produces
+				continue
+			}
+			out[k] = c10TypedValue(p[1])
+		}
+		if allStr {
+			sm := make(map[string]any, len(out))
+			for k, v := range out {
+				sm[k.(string)] = v
+			}
+			return sm
+		}
+		return out
+	}
+	return nil // {"n":true} and shrunk nodes
 }
 
 // c10Body: the bytes of a message body — rendered from the structured YAML tree "ybody" when there is one,
@@ -592,7 +688,9 @@ func c10Auth(o map[string]any) openapi3filter.AuthenticationFunc {
 	case "noop":
 		return openapi3filter.NoopAuthenticationFunc
 	case "deny":
-		return func(_ context.Context, in *openapi3filter.AuthenticationInput) error { return in.NewError(fmt.Errorf("denied")) }
+		return func(_ context.Context, in *openapi3filter.AuthenticationInput) error {
+			return in.NewError(fmt.Errorf("denied"))
+		}
 	}
 	return nil
 }
@@ -625,9 +723,70 @@ func c10RouteKind(err error) string {
 	return "err"
 }
 
+// c10Repeat: how many times the exchange of a traffic case is run in one process (field "repeat", 1..4)
+func c10Repeat(c hx.Case) int {
+	n := c10Int(c["repeat"])
+	if n < 1 {
+		return 1
+	}
+	if n > 4 {
+		return 4
+	}
+	return n
+}
+
+// c10RunTraffic runs the exchange "repeat" times in this process: document loaded and validated, router built, route
+// found, request and response validated, errors rendered — every round on fresh objects, so that whatever differs in a
+// later round comes from state the library keeps between calls (process-wide caches). The first round that does not
+// return normally is the observation (with its number).
 func c10RunTraffic(c hx.Case) any {
+	// "before": other exchanges (own documents) validated earlier in the same process; what they leave behind in
+	// process-wide state is what the main exchange starts from
+	for i, b := range jlist(c["before"]) {
+		bc, ok := b.(map[string]any)
+		if !ok {
+			continue
+		}
+		if m, ok := c10RunTrafficOnce(hx.Case(bc), nil).(map[string]any); ok {
+			if bad, _ := c10Bad(m); bad {
+				m["round"] = -(i + 1)
+				return m
+			}
+		}
+	}
+	n := c10Repeat(c)
+	var out any
+	// "reuse": every round goes through ONE loaded document and ONE router (state kept on the objects: defaults,
+	// compiled routes, whatever a validation writes back into the document) instead of fresh ones
+	var sh *c10Shared
+	if jbool(c, "reuse") {
+		sh = &c10Shared{}
+	}
+	for i := 1; i <= n; i++ {
+		out = c10RunTrafficOnce(c, sh)
+		if m, ok := out.(map[string]any); ok {
+			if bad, _ := c10Bad(m); bad {
+				if n > 1 {
+					m["round"] = i
+				}
+				return m
+			}
+		}
+	}
+	return out
+}
+
+type c10Shared struct {
+	doc    *openapi3.T
+	router routers.Router
+}
+
+func c10RunTrafficOnce(c hx.Case, sh *c10Shared) any {
 	// the zip decoder is exported but not registered by the library: a user registers it like this
-	c10ZipOnce.Do(func() { openapi3filter.RegisterBodyDecoder("application/zip", openapi3filter.ZipFileBodyDecoder) })
+	c10ZipOnce.Do(func() {
+		openapi3filter.RegisterBodyDecoder("application/zip", openapi3filter.ZipFileBodyDecoder)
+		openapi3filter.RegisterBodyDecoder(c10TypedCT, c10TypedDecoder)
+	})
 	out := map[string]any{"kind": "ok"}
 	st := &c10Stage{out: out}
 	docv, _ := c["doc"].(map[string]any)
@@ -636,8 +795,11 @@ func c10RunTraffic(c hx.Case) any {
 	om, _ := c["opts"].(map[string]any)
 	b, _ := json.Marshal(docv)
 	var doc *openapi3.T
+	if sh != nil && sh.doc != nil {
+		doc = sh.doc
+	}
 	// loading and validating is the gate, not the property (C20 owns panics there)
-	if !st.guard("gate", func() {
+	if doc == nil && !st.guard("gate", func() {
 		d, err := openapi3.NewLoader().LoadFromData(b)
 		if err != nil {
 			out["kind"] = "invalid-doc"
@@ -661,7 +823,13 @@ func c10RunTraffic(c hx.Case) any {
 		return out
 	}
 	var router routers.Router
-	if !st.guard("newrouter", func() {
+	if sh != nil {
+		sh.doc = doc
+		router = sh.router
+	}
+	if router != nil {
+		// the router of the earlier rounds
+	} else if !st.guard("newrouter", func() {
 		var err error
 		if jstr(c, "router") == "gorilla" {
 			router, err = gorillamux.NewRouter(doc)
@@ -674,6 +842,9 @@ func c10RunTraffic(c hx.Case) any {
 		}
 	}) || router == nil {
 		return out
+	}
+	if sh != nil {
+		sh.router = router
 	}
 	req, err := c10Request(rq)
 	if err != nil {
@@ -929,6 +1100,11 @@ func cmpC10x(c hx.Case, impl any, reply map[string]any) hx.Verdict {
 			}
 			if !v.IM {
 				v.Detail += " (not an outcome the model allows for this input)"
+				if rd := c10Int(im["round"]); rd < 0 {
+					v.Detail += fmt.Sprintf(" in exchange %d of the list \"before\" (run first in the same process)", -rd)
+				} else if rd > 0 {
+					v.Detail += fmt.Sprintf(" in round %d of %d of the same exchange in one process", rd, c10Repeat(c))
+				}
 			}
 		}
 		if mr, ok := model["route"].(string); ok && !bad {
@@ -1014,6 +1190,197 @@ func genC10(ctx *hx.Ctx, emit func(hx.Case)) {
 	for i := 0; i < n; i++ {
 		emit(c10RandTraffic(r))
 	}
+	// ---- typed Go values from a user-registered body decoder
+	nt := 250
+	if ctx.Thorough() {
+		nt = 4000
+	}
+	for i := 0; i < nt; i++ {
+		emit(c10TypedTraffic(r))
+	}
+	// ---- histories: the same exchange several times in one (fresh) process
+	nh := 160
+	if ctx.Thorough() {
+		nh = 1500
+	}
+	for i := 0; i < nh; i++ {
+		if i%4 == 3 {
+			// any exchange of the general stream, twice
+			c := c10RandTraffic(r)
+			c["repeat"] = 2
+			c["reuse"] = r.Bool()
+			emit(c)
+			continue
+		}
+		c := c10HistoryTraffic(r)
+		c["reuse"] = r.Bool()
+		if i%4 == 1 {
+			// another document with patterns of the same pool first (typed string there → compiled by ITS gate, or
+			// untyped → compiled by its first validation), then this exchange once
+			b := c10HistoryTraffic(r)
+			delete(b, "repeat")
+			if r.Bool() {
+				// … as `type: string` schemas: the other document's GATE compiles them (and rejects the document when
+				// one does not compile — a rejected document has been through the cache all the same)
+				c10TypePatterns(b["doc"])
+			}
+			c["before"] = []any{map[string]any(b)}
+			c["repeat"] = 1
+		}
+		emit(c)
+	}
+}
+
+// c10TypedTree: a value tree for the typed decoder: numbers carry the dynamic type they arrive with
+func c10TypedTree(r *hx.Rng, depth int) map[string]any {
+	scalar := func() map[string]any {
+		switch r.Intn(7) {
+		case 0, 1:
+			return map[string]any{"i": r.Intn(5), "t": hx.Pick(r, []string{"int", "int64", "int32", "float64", "number"})}
+		case 2:
+			return map[string]any{"b": r.Bool()}
+		case 3:
+			return map[string]any{"f": hx.Pick(r, []string{"1.5", "0.0", "2.5"})}
+		case 4:
+			return map[string]any{"n": true}
+		}
+		return map[string]any{"s": hx.Pick(r, []string{"a", "b", "k", "v", "x", "", "1", "true", "kids", "c"})}
+	}
+	if depth <= 0 || r.Chance(25) {
+		return scalar()
+	}
+	if r.Chance(30) {
+		l := []any{}
+		for i := r.Intn(3); i > 0; i-- {
+			l = append(l, c10TypedTree(r, depth-1))
+		}
+		return map[string]any{"l": l}
+	}
+	m := []any{}
+	for i := 1 + r.Intn(3); i > 0; i-- {
+		var k map[string]any
+		if r.Chance(65) {
+			k = map[string]any{"s": hx.Pick(r, []string{"a", "b", "k", "v", "kids", "n"})}
+		} else {
+			k = hx.Pick(r, []map[string]any{{"i": 1, "t": "int"}, {"i": 2, "t": "int64"}, {"b": true}, {"f": "2.5"}, {"i": 0, "t": "float64"}, {"s": "1"}})
+		}
+		m = append(m, []any{k, c10TypedTree(r, depth-1)})
+	}
+	return map[string]any{"m": m}
+}
+
+// c10TypedTraffic: request and response bodies of the content type of the user-registered typed decoder, described by
+// the schemas under which the validator walks into nested mappings and sequences
+func c10TypedTraffic(r *hx.Rng) hx.Case {
+	c10AllowAPCycle = false
+	noCycle := func() any {
+		for {
+			s := c10WalkSchema(r)
+			if b, _ := json.Marshal(s); !strings.Contains(string(b), "$ref") {
+				return s
+			}
+		}
+	}
+	method := hx.Pick(r, []string{"post", "put", "patch"})
+	op := map[string]any{
+		"requestBody": map[string]any{"content": map[string]any{c10TypedCT: map[string]any{"schema": noCycle()}}},
+		"responses":   map[string]any{"200": map[string]any{"description": "d", "content": map[string]any{c10TypedCT: map[string]any{"schema": noCycle()}}}},
+	}
+	doc := map[string]any{"openapi": "3.0.0", "info": map[string]any{"title": "t", "version": "1"},
+		"paths": map[string]any{"/a": map[string]any{method: op}}}
+	body := func() string {
+		b, _ := json.Marshal(c10TypedTree(r, 3))
+		return string(b)
+	}
+	req := map[string]any{"method": strings.ToUpper(method), "scheme": "http", "host": "h", "path": "/a", "rawURL": "http://h/a",
+		"query": "", "headers": []any{}, "ct": c10TypedCT, "body": body()}
+	resp := map[string]any{"status": 200, "ct": c10TypedCT, "body": body(), "headers": []any{}}
+	opts := map[string]any{"multi": r.Chance(50), "skipDefaults": r.Chance(30), "middleware": r.Chance(15), "exRO": r.Chance(20), "exWO": r.Chance(20)}
+	return hx.Case{"op": "traffic", "doc": doc, "router": hx.Pick(r, []string{"legacy", "gorilla"}), "req": req, "resp": resp, "opts": opts}
+}
+
+// schemas whose validation goes through state kept between calls: patterns (the process-wide cache of compiled
+// patterns), in every position where document validation does not compile them first (no `type`, or a type other than
+// string next to them), with texts Go's regexp accepts and texts it rejects (ECMA look-around, back-references,
+// possessive quantifiers, repeat counts above 1000, unknown classes, unbalanced brackets); plus typed, compilable ones
+var c10StatePool = []string{
+	`{"pattern":"^(?!tmp-)[a-z-]+$"}`, `{"pattern":"(?<=a)b"}`, `{"pattern":"(a)\\1"}`, `{"pattern":"a++"}`, `{"pattern":"a{2000}"}`,
+	`{"pattern":"\\p{Foo}"}`, `{"pattern":"[a-"}`, `{"pattern":"("}`, `{"pattern":"^[a-z]+$"}`, `{"pattern":"\\u00E9"}`,
+	`{"type":"string","pattern":"^[a-z]+$"}`, `{"type":"string","pattern":"^(a|b)*$","minLength":1}`,
+	`{"pattern":"(?=x)","minLength":1}`, `{"pattern":"(?!x)","nullable":true}`, `{"pattern":"a**","enum":["abc","x"]}`,
+	`{"properties":{"n":{"pattern":"(?!x)"}}}`, `{"type":"object","properties":{"n":{"pattern":"[z-a]"}}}`,
+	`{"type":"array","items":{"pattern":"(?<!x)y"}}`, `{"items":{"pattern":"x{1001}"}}`,
+	`{"additionalProperties":{"pattern":"(?P<n>a)(?P<n>b)"}}`,
+	`{"oneOf":[{"pattern":"(?!a)"},{"type":"integer"}]}`, `{"anyOf":[{"pattern":"\\Q"},{"pattern":"(?!b)"}]}`,
+	`{"allOf":[{"pattern":"(?!c)"},{"minLength":1}]}`, `{"not":{"pattern":"(?!d)"}}`,
+	`{"type":"integer","pattern":"(?!e)"}`, `{"type":"object","pattern":"(?!f)"}`,
+}
+
+var c10StateBodies = []string{`"abc"`, `"tmp-x"`, `{"n":"abc"}`, `["abc","y"]`, `{"k":"abc"}`, `""`, `1`, `null`, `{"n":1}`}
+
+// c10TypePatterns: every schema with a pattern and no type becomes a string schema
+func c10TypePatterns(v any) {
+	switch x := v.(type) {
+	case map[string]any:
+		if _, ok := x["pattern"].(string); ok && x["type"] == nil {
+			x["type"] = "string"
+		}
+		for _, e := range x { // no random choice, no output order: the order of the walk does not matter
+			c10TypePatterns(e)
+		}
+	case []any:
+		for _, e := range x {
+			c10TypePatterns(e)
+		}
+	}
+}
+
+// c10HistoryTraffic: a small document whose request body, query parameter, header parameter, response body and
+// response header are described by schemas of c10StatePool, string-valued traffic for each of them, and the exchange
+// repeated 2–3 times in one process
+func c10HistoryTraffic(r *hx.Rng) hx.Case {
+	st := func() any { return c10J(hx.Pick(r, c10StatePool)) }
+	plain := func() any {
+		return c10J(hx.Pick(r, []string{`{"type":"string"}`, `{}`, `{"type":"string","pattern":"^[a-z]+$"}`}))
+	}
+	pick := func() any {
+		if r.Chance(55) {
+			return st()
+		}
+		return plain()
+	}
+	method := hx.Pick(r, []string{"post", "put", "get"})
+	op := map[string]any{
+		"parameters": []any{
+			map[string]any{"name": "q", "in": "query", "schema": pick()},
+			map[string]any{"name": "X-H", "in": "header", "schema": pick()},
+		},
+		"responses": map[string]any{"200": map[string]any{"description": "d",
+			"headers": map[string]any{"X-A": map[string]any{"schema": pick()}},
+			"content": map[string]any{"application/json": map[string]any{"schema": pick()}}}},
+	}
+	if method != "get" {
+		op["requestBody"] = map[string]any{"content": map[string]any{"application/json": map[string]any{"schema": st()}}}
+	}
+	if r.Chance(30) {
+		op["parameters"] = append(op["parameters"].([]any), map[string]any{"name": "x", "in": "path", "required": true, "schema": st()})
+	}
+	tpl := "/a"
+	path := "/a"
+	if len(op["parameters"].([]any)) == 3 {
+		tpl, path = "/a/{x}", "/a/"+hx.Pick(r, []string{"abc", "tmp-x", "5"})
+	}
+	doc := map[string]any{"openapi": "3.0.0", "info": map[string]any{"title": "t", "version": "1"},
+		"paths": map[string]any{tpl: map[string]any{method: op}}}
+	u := &url.URL{Scheme: "http", Host: "h", Path: path}
+	req := map[string]any{"method": strings.ToUpper(method), "scheme": "http", "host": "h", "path": path, "rawURL": u.String(),
+		"query": hx.Pick(r, []string{"q=abc", "q=tmp-x", "q=abc&q=x", "", "q="}), "headers": []any{[]any{"X-H", hx.Pick(r, []string{"abc", "tmp-x", ""})}},
+		"ct": "application/json", "body": hx.Pick(r, c10StateBodies)}
+	resp := map[string]any{"status": 200, "ct": "application/json", "body": hx.Pick(r, c10StateBodies),
+		"headers": []any{[]any{"X-A", hx.Pick(r, []string{"abc", "tmp-x"})}}}
+	opts := map[string]any{"multi": r.Chance(50), "skipDefaults": r.Chance(20), "middleware": r.Chance(25), "vhandler": r.Chance(10), "strict": r.Chance(30)}
+	return hx.Case{"op": "traffic", "doc": doc, "router": hx.Pick(r, []string{"legacy", "gorilla"}), "req": req, "resp": resp, "opts": opts,
+		"repeat": 2 + r.Intn(2)}
 }
 
 var c10ServerPool = []string{
@@ -1797,7 +2164,7 @@ func shrinkC10(c hx.Case) []hx.Case {
 	case "traffic":
 		doc, _ := c["doc"].(map[string]any)
 		rq, _ := c["req"].(map[string]any)
-		costly = c10DocHasRefCycle(doc) || c10HugeIndex(jstr(rq, "query"))
+		costly = c10DocHasRefCycle(doc) || c10HugeIndex(jstr(rq, "query")) || c10Repeat(c) >= 2 || len(jlist(c["before"])) > 0
 	}
 	if costly {
 		c10CostlyShrinkRounds++
